@@ -169,7 +169,9 @@ func c05Gen(t *rapid.T) c05Case {
 	c.P = c05GenParams(t)
 	mask := rapid.IntRange(1, 7).Draw(t, "types")
 	c.LJH22, c.LJH3, c.OFF = mask&1 != 0, mask&2 != 0, mask&4 != 0
-	variable := !c.LJH22 && !c.OFF
+	// records of other lengths (edge-multi short records, or lengths reconfigured elsewhere) may reach any publisher:
+	// LJH3 and OFF store them, LJH 2.2 cannot represent them and must leave them out
+	variable := (!c.LJH22 && !c.OFF) || rapid.IntRange(0, 3).Draw(t, "oddlengths") == 0
 	nops := rapid.IntRange(1, 12).Draw(t, "nops")
 	for i := 0; i < nops; i++ {
 		switch rapid.IntRange(0, 9).Draw(t, "opclass") {
@@ -204,6 +206,17 @@ func (r c05Rec) record(chanIndex int) *DataRecord {
 }
 
 var c05Counter int
+
+// c05FullLength keeps the records an LJH 2.2 file can hold: exactly the configured length.
+func c05FullLength(recs []c05Rec, nsamp int) []c05Rec {
+	var out []c05Rec
+	for _, r := range recs {
+		if r.N == nsamp {
+			out = append(out, r)
+		}
+	}
+	return out
+}
 
 // c05CheckLJH22 compares a decoded LJH 2.2 image with the parameters and the accepted records.
 func c05CheckLJH22(b []byte, p c05Params, want []c05Rec) string {
@@ -414,9 +427,6 @@ func c05Valid(c c05Case) bool {
 			if len(r.Coefs) != p.NBases || r.N < 1 || r.N > p.Nsamp || r.Pre < 0 || r.Pre > r.N {
 				return false
 			}
-			if (c.LJH22 || c.OFF) && (r.N != p.Nsamp) {
-				return false
-			}
 		}
 	}
 	return true
@@ -465,7 +475,7 @@ func c05Run(c c05Case) (v vVerdict) {
 			f    func([]byte) string
 		}
 		for _, x := range []fc{
-			{c.LJH22, names["ljh"], func(b []byte) string { return c05CheckLJH22(b, p, accepted) }},
+			{c.LJH22, names["ljh"], func(b []byte) string { return c05CheckLJH22(b, p, c05FullLength(accepted, p.Nsamp)) }},
 			{c.LJH3, names["ljh3"], func(b []byte) string { return c05CheckLJH3(b, p, accepted, 0, 0) }},
 			{c.OFF, names["off"], func(b []byte) string { return c05CheckOFF(b, p, accepted) }},
 		} {
@@ -477,6 +487,7 @@ func c05Run(c c05Case) (v vVerdict) {
 				if len(accepted) == 0 && os.IsNotExist(err) {
 					continue // files are created lazily on the first accepted record
 				}
+				_ = x
 				f := vFailf("file-missing", "%s: %v with %d accepted records", when, err, len(accepted))
 				return &f
 			}
